@@ -1,1 +1,297 @@
-(* Model/Mesh.v -- stub, to be filled in *)
+(* Model/Mesh.v -- src/mesh1d.rs, src/mesh2d.rs.  Definitions only.
+   Storage as the code stores it: a Mesh1D is (nvars, nodes, vars : one variable vector per node);
+   a Mesh2D is (nvars, nx, ny, x_nodes, y_nodes, vars) with node (i,j) at vars[i*ny + j].
+   Every Vec access is checked (rd/upd), every explicit guard is in the code's place and order,
+   `self.nx - 1` is a checked usize subtraction (debug profile).
+   [A] is the arithmetic of the variables (T), [X] the type of the nodal coordinates (only stored
+   and cloned by the generic code).  The f64-only methods (interpolation, quadrature, read) are
+   written over one arithmetic [A] for both, with the literals 0.5, 0.25, 1.0e-7 as arguments
+   (half, quarter, snap), so that the same definitions run on primitive floats (snap = MESH_SNAP
+   of gen/Params.v) and carry the theorems over R. *)
+From Coq Require Import List Arith Lia Bool.
+From OV Require Import Base.Panic.
+From OV Require Import Base.Arith.
+From OV Require Import Model.Vector.
+From OV Require Import Model.Matrix.
+Import ListNotations.
+Local Open Scope bool_scope.
+Local Open Scope arith_scope.
+
+(* Vec::resize(n, v): truncate, or extend with clones of v *)
+Definition resize_list {Y} (l : list Y) (n : nat) (v : Y) : list Y :=
+  firstn n l ++ repeat v (n - length l).
+
+Section Storage.
+Context {A : Arith}.
+Context {X : Type}.
+Notation T := (T A).
+
+(* ------------------------------------------------------------------ Mesh1D<T, X> *)
+Record mesh1 := mkM1 { m1_nvars : nat; m1_nodes : list X; m1_vars : list (list T) }.
+
+(* new: one clone of Vector::new(nvars, 0) per node  (mesh1d.rs:16-23) *)
+Definition mesh1_new (nodes : list X) (nvars : nat) : mesh1 :=
+  mkM1 nvars nodes (repeat (repeat zero nvars) (length nodes)).
+
+Definition nnodes1 (m : mesh1) : nat := length (m1_nodes m).
+Definition coord1 (m : mesh1) (node : nat) : res X := rd (m1_nodes m) node.
+
+(* set_nodes_vars: range guard, nvars guard, then vars[node] = vec  (mesh1d.rs:45-49) *)
+Definition set_nodes_vars1 (m : mesh1) (node : nat) (vec : list T) : res mesh1 :=
+  if length (m1_nodes m) <=? node then Panic Guard else
+  if negb (length vec =? m1_nvars m) then Panic Guard else
+  let* vs := upd (m1_vars m) node vec in
+  Ok (mkM1 (m1_nvars m) (m1_nodes m) vs).
+
+(* get_nodes_vars: range guard, then vars[node].clone()  (mesh1d.rs:53-56) *)
+Definition get_nodes_vars1 (m : mesh1) (node : nat) : res (list T) :=
+  if length (m1_nodes m) <=? node then Panic Guard else rd (m1_vars m) node.
+
+(* Index / IndexMut: unguarded &self.vars[node]  (mesh1d.rs:127-144) *)
+Definition index1 (m : mesh1) (node : nat) : res (list T) := rd (m1_vars m) node.
+(* mesh[node] = vec *)
+Definition index1_set (m : mesh1) (node : nat) (vec : list T) : res mesh1 :=
+  let* vs := upd (m1_vars m) node vec in Ok (mkM1 (m1_nvars m) (m1_nodes m) vs).
+(* mesh[node][var] = x *)
+Definition index1_set_elem (m : mesh1) (node var : nat) (x : T) : res mesh1 :=
+  let* row := rd (m1_vars m) node in
+  let* row' := upd row var x in
+  let* vs := upd (m1_vars m) node row' in
+  Ok (mkM1 (m1_nvars m) (m1_nodes m) vs).
+
+(* ------------------------------------------------------------------ Mesh2D<T> *)
+Record mesh2 := mkM2 { m2_nvars : nat; m2_nx : nat; m2_ny : nat;
+                       m2_x : list X; m2_y : list X; m2_vars : list (list T) }.
+
+(* new: nx*ny clones pushed in the order i (outer), j (inner)  (mesh2d.rs:21-32) *)
+Definition mesh2_new (xs ys : list X) (nvars : nat) : mesh2 :=
+  mkM2 nvars (length xs) (length ys) xs ys
+       (repeat (repeat zero nvars) (length xs * length ys)).
+
+Definition with_vars2 (m : mesh2) (vs : list (list T)) : mesh2 :=
+  mkM2 (m2_nvars m) (m2_nx m) (m2_ny m) (m2_x m) (m2_y m) vs.
+
+(* coord: x_nodes[nodex] then y_nodes[nodey] *)
+Definition coord2 (m : mesh2) (i j : nat) : res (X * X) :=
+  let* px := rd (m2_x m) i in let* py := rd (m2_y m) j in Ok (px, py).
+
+(* the range test  (nodex > self.nx - 1) || (nodey > self.ny - 1) : checked subtractions,
+   short-circuit `||`  (mesh2d.rs:69,79) *)
+Definition range_guard2 (m : mesh2) (i j : nat) : res unit :=
+  let* a := usub (m2_nx m) 1 in
+  if a <? i then Panic Guard else
+  let* b := usub (m2_ny m) 1 in
+  if b <? j then Panic Guard else Ok tt.
+
+Definition set_nodes_vars2 (m : mesh2) (i j : nat) (vec : list T) : res mesh2 :=
+  let* _ := range_guard2 m i j in
+  if negb (length vec =? m2_nvars m) then Panic Guard else
+  let* vs := upd (m2_vars m) (i * m2_ny m + j) vec in
+  Ok (with_vars2 m vs).
+
+Definition get_nodes_vars2 (m : mesh2) (i j : nat) : res (list T) :=
+  let* _ := range_guard2 m i j in
+  rd (m2_vars m) (i * m2_ny m + j).
+
+(* Index / IndexMut on (usize, usize): unguarded  (mesh2d.rs:182-199) *)
+Definition index2 (m : mesh2) (i j : nat) : res (list T) := rd (m2_vars m) (i * m2_ny m + j).
+Definition index2_set (m : mesh2) (i j : nat) (vec : list T) : res mesh2 :=
+  let* vs := upd (m2_vars m) (i * m2_ny m + j) vec in Ok (with_vars2 m vs).
+
+(* self.vars[k][var] = x   (value first, then the place) *)
+Definition set_elem (vs : list (list T)) (k var : nat) (x : T) : res (list (list T)) :=
+  let* row := rd vs k in
+  let* row' := upd row var x in
+  upd vs k row'.
+Definition index2_set_elem (m : mesh2) (i j var : nat) (x : T) : res mesh2 :=
+  let* vs := set_elem (m2_vars m) (i * m2_ny m + j) var x in Ok (with_vars2 m vs).
+
+(* assign: for i, for j, for v: vars[i*ny+j][v] = element  (mesh2d.rs:87-95) *)
+Definition assign2 (m : mesh2) (x : T) : res mesh2 :=
+  let* vs :=
+    for_ 0 (m2_nx m) (fun i vs =>
+      for_ 0 (m2_ny m) (fun j vs =>
+        for_ 0 (m2_nvars m) (fun v vs => set_elem vs (i * m2_ny m + j) v x) vs) vs) (m2_vars m) in
+  Ok (with_vars2 m vs).
+
+(* cross sections: a fresh Mesh1D on the other direction's nodes, filled through the two
+   guarded accessors  (mesh2d.rs:99-115) *)
+Definition cross_section_xnode (m : mesh2) (nodex : nat) : res mesh1 :=
+  for_ 0 (m2_ny m) (fun nodey s =>
+     let* v := get_nodes_vars2 m nodex nodey in set_nodes_vars1 s nodey v)
+    (mesh1_new (m2_y m) (m2_nvars m)).
+Definition cross_section_ynode (m : mesh2) (nodey : nat) : res mesh1 :=
+  for_ 0 (m2_nx m) (fun nodex s =>
+     let* v := get_nodes_vars2 m nodex nodey in set_nodes_vars1 s nodex v)
+    (mesh1_new (m2_x m) (m2_nvars m)).
+
+(* var_as_matrix: guard, Matrix::new(nx, ny, 0), m[(i,j)] = vars[i*ny+j][var]  (mesh2d.rs:119-129) *)
+Definition var_as_matrix (m : mesh2) (var : nat) : res (matrix A) :=
+  if m2_nvars m <=? var then Panic Guard else
+  for_ 0 (m2_nx m) (fun i s =>
+    for_ 0 (m2_ny m) (fun j s =>
+      let* row := rd (m2_vars m) (i * m2_ny m + j) in
+      let* x := rd row var in
+      mset s i j x) s) (mat_new (m2_nx m) (m2_ny m) zero).
+
+(* apply: for i { x = x_nodes[i]; for j { y = y_nodes[j]; vars[i*ny+j][var] = func(x,y) } }
+   the user function is an argument (it may itself panic: exact division)  (mesh2d.rs:133-141) *)
+Definition apply2 (func : X -> X -> res T) (m : mesh2) (var : nat) : res mesh2 :=
+  let* vs :=
+    for_ 0 (m2_nx m) (fun i vs =>
+      let* x := rd (m2_x m) i in
+      for_ 0 (m2_ny m) (fun j vs =>
+        let* y := rd (m2_y m) j in
+        let* v := func x y in
+        set_elem vs (i * m2_ny m + j) var v) vs) (m2_vars m) in
+  Ok (with_vars2 m vs).
+
+(* ------------------------------------------------------------------ output as a token layout
+   One list of tokens per line written; formatting is abstract (one function per Display type).
+   Mesh1D::output: node, then the nvars variables  (mesh1d.rs:150-159)
+   Mesh2D::output: for j, for i: x y vars..., and an empty line after every j  (mesh2d.rs:204-217) *)
+Section Output.
+Variable tok : Type.
+Variable fmtx : X -> tok.
+Variable fmt : T -> tok.
+
+Definition output1 (m : mesh1) : res (list (list tok)) :=
+  for_ 0 (length (m1_nodes m)) (fun i lines =>
+    let* x := rd (m1_nodes m) i in
+    let* line := for_ 0 (m1_nvars m) (fun var line =>
+                   let* row := rd (m1_vars m) i in
+                   let* v := rd row var in Ok (line ++ [fmt v])) [fmtx x] in
+    Ok (lines ++ [line])) [].
+
+Definition output2 (m : mesh2) : res (list (list tok)) :=
+  for_ 0 (m2_ny m) (fun j lines =>
+    let* lines :=
+      for_ 0 (m2_nx m) (fun i lines =>
+        let* x := rd (m2_x m) i in
+        let* y := rd (m2_y m) j in
+        let* line := for_ 0 (m2_nvars m) (fun var line =>
+                       let* row := rd (m2_vars m) (i * m2_ny m + j) in
+                       let* v := rd row var in Ok (line ++ [fmt v])) [fmtx x; fmtx y] in
+        Ok (lines ++ [line])) lines in
+    Ok (lines ++ [[]])) [].
+
+Definition output_var2 (m : mesh2) (var : nat) : res (list (list tok)) :=
+  for_ 0 (m2_ny m) (fun j lines =>
+    let* lines :=
+      for_ 0 (m2_nx m) (fun i lines =>
+        let* x := rd (m2_x m) i in
+        let* y := rd (m2_y m) j in
+        let* row := rd (m2_vars m) (i * m2_ny m + j) in
+        let* v := rd row var in
+        Ok (lines ++ [[fmtx x; fmtx y; fmt v]])) lines in
+    Ok (lines ++ [[]])) [].
+End Output.
+
+End Storage.
+
+Arguments mesh1 A X : clear implicits.
+Arguments mesh2 A X : clear implicits.
+
+(* ------------------------------------------------------------------ impl Mesh1D<f64, f64>, impl Mesh2D<f64> *)
+Section Numeric.
+Context {A : Arith}.
+Notation T := (T A).
+Notation mesh1 := (mesh1 A A).
+Notation mesh2 := (mesh2 A A).
+
+(* the cell test of get_interpolated_vars  (mesh1d.rs:72-74).
+   `.abs()` on f64 is the inherent method; Signed::abs differs from it only in the sign of a
+   zero / NaN result, which the comparison `< 1.0e-7` cannot see. *)
+Definition in_cell (snap xl xr x : T) : bool :=
+  (ltb xl x && gtb xr x) || ltb (abs (xl - x)) snap || ltb (abs (xr - x)) snap.
+
+(* left + ((right - left) / (xr - xl)) * (x - xl) with the Vector operators of the code:
+   Sub (size guard), Div<T>, Mul<T>, Add (size guard)  (mesh1d.rs:76-80) *)
+Definition cell_line (m : mesh1) (node : nat) (xl xr x : T) : res (list T) :=
+  let delta_x := x - xl in
+  let* lft := get_nodes_vars1 m node in
+  let* rgt := get_nodes_vars1 m (node + 1) in
+  let* d := vsub rgt lft in
+  let* deriv := vdiv d (xr - xl) in
+  vadd lft (vscale deriv delta_x).
+
+(* get_interpolated_vars: result = zeros; EVERY cell 0..n-1 is tested, a later matching cell
+   overwrites the result of an earlier one  (mesh1d.rs:69-84) *)
+Definition interp1 (snap : T) (m : mesh1) (x : T) : res (list T) :=
+  let* n1 := usub (length (m1_nodes m)) 1 in
+  for_ 0 n1 (fun node result =>
+    let* xl := rd (m1_nodes m) node in
+    let* xr := rd (m1_nodes m) (node + 1) in
+    if in_cell snap xl xr x then cell_line m node xl xr x else Ok result)
+    (repeat zero (m1_nvars m)).
+
+(* Mesh1D::trapezium: sum += 0.5 * dx * (v[node][var] + v[node+1][var])  (mesh1d.rs:88-96) *)
+Definition var_at (vs : list (list T)) (k var : nat) : res T :=
+  let* row := rd vs k in rd row var.
+
+Definition trap1_cell (half : T) (m : mesh1) (var node : nat) : res T :=
+  let* xr := rd (m1_nodes m) (node + 1) in
+  let* xl := rd (m1_nodes m) node in
+  let dx := xr - xl in
+  let* a := var_at (m1_vars m) node var in
+  let* b := var_at (m1_vars m) (node + 1) var in
+  Ok (half * dx * (a + b)).
+
+Definition trapezium1 (half : T) (m : mesh1) (var : nat) : res T :=
+  let* n1 := usub (length (m1_nodes m)) 1 in
+  for_ 0 n1 (fun node sum => let* c := trap1_cell half m var node in Ok (sum + c)) zero.
+
+(* Mesh2D::trapezium / square_trapezium  (mesh2d.rs:148-179):
+   sum += 0.25 * dx * dy * (g v[i,j] + g v[i+1,j] + g v[i,j+1] + g v[i+1,j+1]) *)
+Definition trap2_cell (quarter : T) (g : T -> T) (m : mesh2) (var i j : nat) (dx : T) : res T :=
+  let ny := m2_ny m in
+  let* yr := rd (m2_y m) (j + 1) in
+  let* yl := rd (m2_y m) j in
+  let dy := yr - yl in
+  let* v00 := var_at (m2_vars m) (i * ny + j) var in
+  let* v10 := var_at (m2_vars m) ((i + 1) * ny + j) var in
+  let* v01 := var_at (m2_vars m) (i * ny + j + 1) var in
+  let* v11 := var_at (m2_vars m) ((i + 1) * ny + j + 1) var in
+  Ok (quarter * dx * dy * (g v00 + g v10 + g v01 + g v11)).
+
+Definition trap2_gen (quarter : T) (g : T -> T) (m : mesh2) (var : nat) : res T :=
+  let* nx1 := usub (m2_nx m) 1 in
+  for_ 0 nx1 (fun i sum =>
+    let* xr := rd (m2_x m) (i + 1) in
+    let* xl := rd (m2_x m) i in
+    let dx := xr - xl in
+    let* ny1 := usub (m2_ny m) 1 in
+    for_ 0 ny1 (fun j sum => let* c := trap2_cell quarter g m var i j dx in Ok (sum + c)) sum) zero.
+
+Definition trapezium2 (quarter : T) (m : mesh2) (var : nat) : res T :=
+  trap2_gen quarter (fun v => v) m var.
+(* f64::powf(|v|, 2.0) is modelled by |v| * |v| (libm: exact whenever the square is representable;
+   otherwise within an ulp -- compared by tolerance in the tie) *)
+Definition square_trapezium2 (quarter : T) (m : mesh2) (var : nat) : res T :=
+  trap2_gen quarter (fun v => abs v * abs v) m var.
+
+(* Mesh1D::read on the whitespace-token list of the file  (mesh1d.rs:100-122).
+   parse = f64::from_str(..).unwrap()  (Panic Unwrap on a malformed token). *)
+Section Read.
+Variable tok : Type.
+Variable parse : tok -> res T.
+
+Definition read1 (m : mesh1) (toks : list tok) : res mesh1 :=
+  let nv := m1_nvars m in
+  let* nodes :=
+    for_ 0 (length toks) (fun i nodes =>
+      if i mod (nv + 1) =? 0 then
+        let* t := rd toks i in let* x := parse t in Ok (nodes ++ [x])
+      else Ok nodes) [] in
+  let vars0 := resize_list (m1_vars m) (length nodes) (repeat zero nv) in
+  let* vars :=
+    for_ 0 (length toks) (fun i vars =>
+      for_ 0 nv (fun var vars =>
+        if i mod (nv + 1) =? var + 1 then
+          let* t := rd toks i in let* x := parse t in
+          set_elem vars (i / (nv + 1)) var x
+        else Ok vars) vars) vars0 in
+  Ok (mkM1 nv nodes vars).
+End Read.
+
+End Numeric.
